@@ -165,7 +165,7 @@ def draw_system(rng, seed: int, prop: str, *, families=("single",) * 6 + ("cross
             v.pop("extra_coord", None)      # views with (different) auxiliary coordinates cannot be concatenated
         descs.update(A0=a, B0=b, C0=c)
         # same number of views, other values and another sample count (per-view state must not survive)
-        n1 = a["sample"][0][1] + rng.choice([0, 4, -3])
+        n1 = a["sample"][0][1] + rng.choice([0, 4, 5])      # (never fewer samples: a handful of samples is rank-deficient)
         descs["A1"] = space.same_structure(rng, a, n_samples=n1)
         descs["B1"] = space.same_structure(rng, b, n_samples=n1)
         fits["F0"] = {"views": ["A0", "B0"]}
